@@ -7,6 +7,7 @@ import Tahoe.Immutable.IntegrityBytes
         → `healthy=<0|1> recoverable=<0|1> good=<n> corrupt=<n> incompatible=<n>`     (`Checker._format_results`)
   `verify <asis|fixed> <hashtree asis|fixed> <uebhash-hex> <k> <n> <size> <shnum> <share-hex>`
         → `good` | `corrupt` | `incompatible` | `raised`                  (`Checker._download_and_verify`)
+  `fmtlists <results as for fmt>` → `corrupt=<srv.sh,…|-> incompatible=<srv.sh,…|->`   (locator lists of `_format_results`)
   `repairdecision <k> <n> <results as for fmt>` → `attempt=<0|1>`       (`CiphertextFileNode._maybe_repair`)
   `postrepair <k> <n> <pre-repair sharemap> <upload sharemap>`  (sharemap = `shnum:srv.srv;…` | `-`)
         → `healthy=<0|1> recoverable=<0|1> good=<n>`                      (`_gather_repair_results`)
@@ -62,6 +63,12 @@ def handle : List String → String
       match verifyShare realEnv cfg vc pick0 cap shnum (vviewOf cap sh) with
       | .good => "good" | .corrupt => "corrupt" | .incompatible => "incompatible" | .raised => "raised"
     | _, _, _, _, _, _, _, _ => "bad-op"
+  | ["fmtlists", rs] =>
+    match (if rs == "-" then some [] else (rs.splitOn ";").mapM parseResult) with
+    | some rs =>
+      let sh := fun (l : List (Nat × Nat)) => if l.isEmpty then "-" else ",".intercalate (l.map (fun (a, b) => s!"{a}.{b}"))
+      s!"corrupt={sh (corruptLocators rs)} incompatible={sh (incompatibleLocators rs)}"
+    | none => "bad-op"
   | ["repairdecision", k, n, rs] =>
     match k.toNat?, n.toNat?, (if rs == "-" then some [] else (rs.splitOn ";").mapM parseResult) with
     | some k, some n, some rs => s!"attempt={b01 (repairDecision k n rs)}"
